@@ -45,6 +45,12 @@ let parse_cmd (c : string) : cmd =
   | ["bg"; ks; t; rs] -> BatchGet (nlist ks, pn t, nlist rs)
   | ["sc"; s; e; l; t; rs] -> Scan (pn s, pn e, nat_of_int (int_of_n (pn l)), pn t, nlist rs)
   | ["rs"; s; e; l; t; rs] -> ReverseScan (pn s, pn e, nat_of_int (int_of_n (pn l)), pn t, nlist rs)
+  | ["rcget"; k; t] -> Rc (QGet (pn k, pn t))
+  | ["rcbg"; ks; t] -> Rc (QBatchGet (nlist ks, pn t))
+  | ["rcsc"; s; e; l; t] -> Rc (QScan (pn s, pn e, nat_of_int (int_of_n (pn l)), pn t))
+  | ["rcrs"; s; e; l; t] -> Rc (QReverseScan (pn s, pn e, nat_of_int (int_of_n (pn l)), pn t))
+  | ["dr"; s; e] -> DeleteRange (pn s, pn e)
+  | ["ms"; s] -> MvccByStartTs (pn s)
   | _ -> failwith ("unknown command: " ^ c)
 
 (* ---------------------------------------------------------------- printing (same canonical forms as the Go driver) *)
@@ -75,7 +81,12 @@ let pres_s = function
 let pair_s = function
   | PVal (k, v, c) -> hx k ^ "=" ^ hx v ^ "@" ^ hx c
   | PErr (k, e) -> hx k ^ "!" ^ err_s e
+let mvcc_s k (ks : kstate) =
+  "M(" ^ hx k ^ ";" ^ (match ks.ks_lock with None -> "-" | Some l -> Printf.sprintf "L(%s,%s,%s,%s)" (hx l.l_start) (hx l.l_primary) (opc l.l_op) (hx l.l_value))
+  ^ "/" ^ String.concat "," (List.map (fun w -> Printf.sprintf "W(%s,%s,%s,%s)" (match w.w_kind with WPut -> "P" | WDel -> "D" | WRollback -> "R" | WLock -> "L") (hx w.w_start) (hx w.w_commit) (hx w.w_value)) ks.ks_writes) ^ ")"
 let resp_s = function
+  | RMvcc (k, ks) -> mvcc_s k ks
+  | RPanic -> "PANIC"
   | RErr e -> oerr_s e
   | RErrs es -> "[" ^ String.concat ";" (List.map oerr_s es) ^ "]"
   | RPess (es, rs) -> "E[" ^ String.concat ";" (List.map err_s es) ^ "]R[" ^ String.concat ";" (List.map pres_s rs) ^ "]"
@@ -195,6 +206,18 @@ module Oracles = struct
        let sp = resp_s (RPairs (spec_scan before s e l t rs)) in chk "scan_is_gets" (unchanged && sp = iresp) ("scan answered " ^ iresp ^ ", per-key gets " ^ sp)
      | ReverseScan (s, e, l, t, rs) ->
        let sp = resp_s (RPairs (spec_rscan before s e l t rs)) in chk "reverse_mirror" (unchanged && sp = iresp) ("reverse scan answered " ^ iresp ^ ", mirror " ^ sp)
+     | Rc q ->
+       (* isolation level RC = the same read on the store with every lock removed *)
+       let u = unlocked before in
+       let expect = (match q with
+           | QGet (k, t) -> resp_s (spec_get u k t [])
+           | QBatchGet (ks, t) -> resp_s (snd (step u (BatchGet (ks, t, []))))
+           | QScan (s, e, l, t) -> resp_s (RPairs (spec_scan u s e l t []))
+           | QReverseScan (s, e, l, t) -> resp_s (RPairs (spec_rscan u s e l t []))) in
+       chk "rc_ignores_locks" (unchanged && expect = iresp) ("RC read answered " ^ iresp ^ ", lock-free read " ^ expect)
+     | DeleteRange (s, e) ->
+       chk "delete_range" (iresp = "ok" && List.for_all (fun k -> if in_range s e k then get_ks after k = empty_ks else ks_s (get_ks after k) = ks_s (get_ks before k)) key_ids)
+         "delete range left rows inside or touched rows outside the range"
      | GC (s, e, sp) ->
        let refused = gc_refused before s e sp in
        chk "gc_refuses_lock" ((iresp <> "ok") = refused && (iresp = "ok" || unchanged)) ("gc answered " ^ iresp ^ (if refused then " with" else " without") ^ " a lock at or below the safe point");
